@@ -12,8 +12,18 @@ ASSUMPTIONS = ['model of the parser stack validated only by this correspondence'
                '"content before the first error is kept" is operationalised conservatively: with p the strict error position and '
                'm the largest m <= p such that s[:m] parses strictly, every top-level node of strict(s[:m]) that is followed by '
                'a later non-whitespace, non-comment node appears unchanged at the same index of the tolerant result, and a last '
-               'text node is kept as a prefix; the exact tolerant result is compared with the model on every case']
-PARTIAL = []
+               'text node is kept as a prefix; the exact tolerant result is compared with the model on every case',
+               'C06_terminates / C06_total / C06_strict_outcome are proved for every string and every context whose '
+               'specifications have at most 10 argument slots (ctx_wf; the default context, regenerated from the repository on '
+               'every run, has 6 and C06_default_ctx_wf re-checks it): this is a limit of the MODEL\'s fixed fuel 8*len+40, '
+               'not of the code (C06_fuel_bound_sharp: an 11-slot context and an 80-character input exhaust it; the real '
+               'parser returns normally); C06_fuel_enough gives the bound for every context',
+               '"bounded time" is proved as termination of the model within an explicit recursion budget; wall-clock time '
+               'of the real code is only guarded by the per-case timeout of the correspondence']
+PARTIAL = ['C06_prefix (the nodes parsed before the first strict error are still returned) has no Coq theorem: it is '
+           'decided by the correspondence of the exact tolerant trees and by the conservative oracle',
+           'C06_terminates / C06_total need ctx_wf (at most 10 argument slots per spec): the fixed fuel of the model; '
+           'C06_fuel_enough gives the bound for every context']
 REFUTED = []
 CASE_TIMEOUT = 10.0
 case_from_desc = PC.case_from_desc
